@@ -11,7 +11,7 @@ from __future__ import annotations
 import ast
 
 from ..core.terms import (cmp_, not_, pc, phi_, c, evaluate, fn_name, kw, make_inliner, n, pretty, subterms)
-from .common import is_call, method, short
+from .common import is_call, method, same_decision, short
 
 MODEL = "liesel.model.model"
 NODES = "liesel.model.nodes"
@@ -51,14 +51,33 @@ def check(ctx):
         r = evaluate(repo, fi, inline=inl, inline_depth=3)
         user = ("a", SELF, user_attr)
         adds = [(t, cond) for t, _, cond in r.calls if t[1] == ("a", SELF, "add")]
-        default = [(t, cond) for t, cond in adds if (user, False) in cond]
-        forwarded = [(t, cond) for t, cond in adds if (user, True) in cond]
+        # what is added when the user supplied a node / when not: two `add` calls in the
+        # arms of the test, or one `add` of a value chosen by the test
+        fw_x, df_x = [], []
+        for t, cond in adds:
+            x_ = t[2][0] if t[2] else None
+            if x_ is None:
+                continue
+            if (user, True) in cond:
+                fw_x.append(x_)
+            elif (user, False) in cond:
+                df_x.append(x_)
+            elif x_[0] == "phi" and x_[1] == user:
+                fw_x.append(x_[2])
+                df_x.append(x_[3])
+            else:
+                fw_x.append(x_)
+                df_x.append(x_)
+        default = [(("call", ("a", SELF, "add"), (x_,), ()), ()) for x_ in df_x]
+        forwarded = [(("call", ("a", SELF, "add"), (x_,), ()), ()) for x_ in fw_x]
+        # the default node is BUILT only when there is no user node
+        calc_built = [cond for t, _, cond in r.calls if is_call(t, f"{NODES}.Calc")]
         # ---- R3
         ok_f = (len(forwarded) == 1 and forwarded[0][0][2]
                 and is_call(forwarded[0][0][2][0], f"{NODES}.TransientIdentity")
                 and forwarded[0][0][2][0][2][:1] == (user,)
                 and kw(forwarded[0][0][2][0], "_name", 1) == c(NAMES[key])
-                and any((user, True) in rc for rc, _, _ in r.returns))
+                and all((user, False) in cd for cd in calc_built))
         ctx.ob("C02.R3", fi, f"a user-supplied {user_attr} is wrapped in a TransientIdentity "
                              f"named '{NAMES[key]}' and no default node is built", ok_f,
                detail=str([short(t) for t, _ in forwarded]), stmt=f"forward {key}")
@@ -158,7 +177,9 @@ def check(ctx):
         r = evaluate(repo, fi)
         if cname == "Dist":
             vals = [val for loc, val, _, _ in r.stores if loc == ("a", SELF, "_value")]
-            v = vals[0] if len(vals) == 1 else None
+            # (stores in the arms of an if / else: the value the field ends up with)
+            v = vals[0] if len(vals) == 1 else (
+                r.env.heap.get(("a", SELF, "_value")) if r.env is not None else None)
         else:
             v = r.ret()
         lp = ("call", ("a", ("call", ("a", SELF, "init_dist"), (), ()), "log_prob"),
@@ -170,7 +191,8 @@ def check(ctx):
         while vv is not None and vv[0] == "phi" and vv[1][0] == "path":
             vv = vv[3]
         ctx.ob("C02.R2", fi, "log-density = init_dist().log_prob(at.value) (the attached "
-                             "variable's CURRENT value), summed iff per_obs is off", vv == want,
+                             "variable's CURRENT value), summed iff per_obs is off",
+               vv is not None and same_decision(vv, want),
                detail=short(vv or (), 200), stmt=f"{cname} log_prob " + pretty(vv or ())[:200])
     # ---- readers
     mc = repo.cls(f"{MODEL}.Model")
